@@ -1,8 +1,64 @@
-(** C15 — an exported package computes the same values as the model.  Property theorems only. *)
-From Coq Require Import List String.
-From MX Require Import Export.Model Export.Proofs.
+(** C15 — an exported package computes the same values as the model.
+    Property theorems only.  Model: Export/Model.v (formula grammar with binders,
+    [classify_global]/[transform] = transformer.py's scope rule, evaluator [eval] with
+    fuel for calls, the modelx world [Wo] and the exported world [Wt], memo tables). *)
+From Coq Require Import List String ZArith Bool.
+From MX Require Import Export.Model Export.Proofs Export.Examples.
 Import ListNotations.
 
+(** the symtable rule: a name occurrence is global iff no enclosing function /
+    comprehension scope binds it *)
 Theorem C15_classify_spec : forall sc x, classify_global sc x = true <-> ~ In x sc.
 Proof. exact classify_spec. Qed.
 Print Assumptions C15_classify_spec.
+
+(** For every model satisfying [model_ok] (namespace values and built-ins are
+    closure-free, no formula uses the name [self], the transformer knows every namespace
+    name that shadows a built-in, its cells set names cells), every expression [e] of the
+    grammar, every environment of enclosing scopes, every amount of fuel: whenever the
+    formula evaluates to a value in the model (globals = namespace of its space, then
+    built-ins), the transformed formula evaluated in the exported package (globals =
+    built-ins, [self.<n>] = namespace entry n of the space object) evaluates to the same
+    value, up to the translation [tv] of function objects created by the formula
+    (identity on closure-free values).
+    One-directional on purpose: where the model raises (e.g. subscribing a cells inside
+    a formula: a bound method) the exported package may return a value. *)
+Theorem C15_transform_sound : forall M, model_ok M -> forall n s e en v,
+  env_ok en = true -> no_self e = true ->
+  eval n (Wo M) s e en = Ok v ->
+  eval n (Wt M) s (transform (m_cfg M s) (map fst en) e) (tenv M en ++ self_frame s) = Ok (tv M v).
+Proof. exact transform_sound. Qed.
+Print Assumptions C15_transform_sound.
+
+(** whole-package form: a cells of any space (static, derived, ItemSpace instance:
+    any [sid]) called from outside with closure-free arguments returns in the exported
+    package the closure-free value it returns in the model *)
+Theorem C15_exported_cells_same_value : forall M, model_ok M -> forall n s nm args v,
+  forallb fo args = true -> fo v = true ->
+  call_cells n (Wo M) s nm args = Ok v ->
+  call_cells n (Wt M) s nm args = Ok v.
+Proof. exact call_cells_same_value. Qed.
+Print Assumptions C15_exported_cells_same_value.
+
+(** the transformation never touches a binder *)
+Theorem C15_transform_keeps_binders : forall c e sc, assigned (transform c sc e) = assigned e.
+Proof. exact assigned_transform. Qed.
+Print Assumptions C15_transform_keeps_binders.
+
+(** the generated memoised method ([_v_x] / [_has_x] tables) answers, on any sequence of
+    calls, clears and item deletions from any consistent table, what the uncached body
+    answers *)
+Theorem C15_memo_sound : forall (V : Type) (f : key -> V) ops t,
+  memo_inv f t ->
+  snd (mrun f t ops) = mspec f ops /\ memo_inv f (fst (mrun f t ops)).
+Proof. exact @memo_sound. Qed.
+Print Assumptions C15_memo_sound.
+
+(** the hypotheses are satisfiable on a non-trivial model (two spaces, a reference
+    shadowing a built-in, an object-valued reference, a lambda, a comprehension, a
+    keyword call): Export/Examples.v *)
+Theorem C15_hypotheses_satisfiable :
+  model_ok M0 /\ call_cells 5 (Wo M0) 0 "foo" [VInt 2] = Ok (VInt 50)
+              /\ call_cells 5 (Wt M0) 0 "foo" [VInt 2] = Ok (VInt 50).
+Proof. exact (conj M0_ok (conj M0_foo_model M0_foo_exported)). Qed.
+Print Assumptions C15_hypotheses_satisfiable.
